@@ -279,6 +279,16 @@ def splitDot : Str → List Str
       | p :: ps => (c :: p) :: ps
       | [] => [[c]]
 
+/-- `strings.Split(s, sep)` for a separator of one byte `c` (`genSplit` with `n = -1`: cut at every
+occurrence; the empty string gives one empty part) -/
+def splitByte (c : Nat) : Str → List Str
+  | [] => [[]]
+  | x :: r =>
+    if x = c then [] :: splitByte c r
+    else match splitByte c r with
+      | p :: ps => (x :: p) :: ps
+      | [] => [[x]]
+
 /-- `[a-z0-9]|[a-z0-9][a-z0-9\-]*[a-z0-9]` -/
 def labelOk (l : Str) : Bool :=
   match l with
